@@ -39,6 +39,10 @@ impl<T: DatabaseConnection> DatabaseManager for T {
 
     /// Generic method to store data into the database.
     fn store_data<P: Params>(&self, query: &str, params: P) -> Result<(), Error> {
+        #[cfg(feature = "verif")]
+        crate::verif::crash_point("store_data:pre");
+        #[cfg(feature = "verif")]
+        let _post = CrashPointOnDrop("store_data:post");
         match self.get_connection().execute(query, params) {
             Ok(_) => Ok(()),
             Err(e) => match e {
@@ -57,6 +61,10 @@ impl<T: DatabaseConnection> DatabaseManager for T {
 
     /// Generic method to remove data from the database.
     fn remove_data<P: Params>(&self, query: &str, params: P) -> Result<(), Error> {
+        #[cfg(feature = "verif")]
+        crate::verif::crash_point("remove_data:pre");
+        #[cfg(feature = "verif")]
+        let _post = CrashPointOnDrop("remove_data:post");
         match self.get_connection().execute(query, params).unwrap() {
             0 => Err(Error::NotFound),
             _ => Ok(()),
@@ -68,5 +76,18 @@ impl<T: DatabaseConnection> DatabaseManager for T {
         // Updating data is fundamentally the same as deleting it in terms of interface.
         // A query is sent and either no row is modified or some rows are
         self.remove_data(query, params)
+    }
+}
+
+/// Fires a crash point when the enclosing write returns (verification builds only).
+#[cfg(feature = "verif")]
+struct CrashPointOnDrop(&'static str);
+
+#[cfg(feature = "verif")]
+impl Drop for CrashPointOnDrop {
+    fn drop(&mut self) {
+        if !std::thread::panicking() {
+            crate::verif::crash_point(self.0);
+        }
     }
 }
